@@ -44,10 +44,18 @@ def run(ctx):
             if benign and w[0] == "io.write" and not x.startswith("ok " + w[2] + " "):
                 viol = (o, x, y)
                 break
+            if benign and w[0] in ("io.readoreof", "io.readorthrow"):
+                # the bytes a read loop returns must be the source's first `amount` bytes, whatever the fragments (the model agrees with
+                # that on this op, so the statement does not rest on how a script entry is interpreted)
+                src = pvlib.unhx(w[3])[:int(w[2])]
+                exp = "ok " + hx(src)
+                if (y == exp or y.startswith(exp + " ")) and not (x == exp or x.startswith(exp + " ")):
+                    viol = (o, x, y)
+                    break
         if viol:
             o, x, y = viol
             pvlib.report_violation(ctx, "io:" + o, {"ops": [o], "impl": x, "model": y},
-                                   summary=f"{o}: bytes handed to the OS differ from the data under short writes/EINTR: {x}")
+                                   summary=f"{o}: bytes " + ("handed to the OS differ from the data under short writes/EINTR" if o.startswith("io.write") else "returned by the read loop are not the source's bytes under short reads/EINTR") + f": {x}")
         else:
             i, o, x, y = bad[0]
             pvlib.report_violation(ctx, "corr:io.loops", {"ops": [q[1] for q in bad[:10]], "impl": x, "model": y,
